@@ -423,7 +423,15 @@ pub fn family(name: &str, tier: Tier) -> Vec<Case> {
             // amplification-limited until it is validated
             let mut s = Scenario::base("migrate/rebind-during-server-push");
             s.tls = Tls::S2n;
-            s.tasks = vec![vec![Op::Sleep(900)]];
+            // the client keeps sending a trickle of its own: a silent receiver behind a rebinding NAT cannot
+            // be found again by the server (nothing QUIC could do about that)
+            let mut trickle = vec![Op::OpenUni];
+            for _ in 0..30 {
+                trickle.push(Op::Write(50, 0));
+                trickle.push(Op::Sleep(30));
+            }
+            trickle.push(Op::Close);
+            s.tasks = vec![trickle];
             s.server_mode.push_streams = 2;
             s.server_mode.push_size = 40_000;
             s.client_accepts_uni = true;
